@@ -11,6 +11,9 @@ import (
 	"os"
 	"strconv"
 	"strings"
+	"sync"
+	"sync/atomic"
+	"time"
 
 	sentinel "github.com/alibaba/sentinel-golang/api"
 	"github.com/alibaba/sentinel-golang/core/base"
@@ -1050,6 +1053,121 @@ func coqConc(c concCase, evs []concEv, obs []obsT, fin []finT, tf uint64) string
 	return fmt.Sprintf("Conc %d %s %d %s\n %s\n %s %d\n %s", c.ID, coqCfg(), c.T0, coqRules([][]ruleT{c.Rules}), emit.List(es), emit.List(os_), tf, coqFin(fin))
 }
 
+// ---- real-thread search leg: start-up races on a fresh resource ----
+//
+// Per trial a brand-new resource: the first rule load (whole-set or per-resource; threshold T over the
+// default window, an independent window, or an associated rule's referenced resource) runs in parallel with
+// the first requests of that resource on real threads.  When all of them have returned and exited, the clock
+// moves to a fresh aligned window and 3 + T strictly sequential single-token requests are sent: whatever the
+// schedule of the start-up was, exactly floor(T) of them are admitted (k = 1: no excess, no spurious block).
+const raceBase = 300000
+
+// raceLoadNs: measured duration of the first rule load of a fresh resource (calibrates the start delays only)
+var raceLoadNs time.Duration = 20 * time.Microsecond
+
+func raceCalibrate() {
+	const n = 40
+	t0 := time.Now()
+	for i := 0; i < n; i++ {
+		res := "c02-racecal-" + strconv.Itoa(i)
+		flow.LoadRulesOfResource(res, []*flow.Rule{{ID: "0", Resource: res, Threshold: 1}})
+	}
+	if d := time.Since(t0) / n; d > time.Microsecond && d < 5*time.Millisecond {
+		raceLoadNs = d
+	}
+	flow.ClearRules()
+}
+
+func raceTrial(trial int, clk *vclock.Clock, rep *emit.Report) bool {
+	id := raceBase + trial
+	res := "c02-race-" + strconv.Itoa(trial)
+	T := float64(1 + trial%3)
+	itv := uint32([]int64{0, 0, 1000, 3000, 750}[trial%5])
+	whole := trial%2 == 0
+	const G = 3
+	input := map[string]interface{}{"id": id, "family": "real-thread search: first load of a fresh resource in parallel with its first requests",
+		"threshold": T, "stat_interval_ms": itv, "whole_set_load": whole, "parallel_first_requests": G,
+		"then": "clock to a fresh aligned window, 3 + T sequential single-token requests"}
+	fail := func(clause, sig, detail string) { rep.Fail(id, clause, sig, detail, input) }
+	base0 := uint64(1700000000000) + uint64(trial)*40000
+	clk.SetMs(base0 + 137)
+	rule := &flow.Rule{ID: "0", Resource: res, TokenCalculateStrategy: flow.Direct, ControlBehavior: flow.Reject, Threshold: T, StatIntervalInMs: itv}
+	start := make(chan struct{})
+	var wg sync.WaitGroup
+	var fault atomic.Value
+	guarded := func(f func()) {
+		defer wg.Done()
+		defer func() {
+			if x := recover(); x != nil {
+				fault.Store(fmt.Sprint(x))
+			}
+		}()
+		<-start
+		f()
+	}
+	wg.Add(1 + G)
+	go guarded(func() {
+		var err error
+		if whole {
+			_, err = flow.LoadRules([]*flow.Rule{rule})
+		} else {
+			_, err = flow.LoadRulesOfResource(res, []*flow.Rule{rule})
+		}
+		if err != nil {
+			fault.Store("load failed: " + err.Error())
+		}
+	})
+	// the load reaches the node creation later than a request does: the requests start after a real-time delay
+	// swept over the trials (0 .. 4/3 of the measured duration of a first load, each goroutine a little later),
+	// so that some trials let both sides meet in the creation path; the delay has no influence on what is
+	// checked afterwards
+	for g := 0; g < G; g++ {
+		delay := raceLoadNs*time.Duration(trial%64)/48 + time.Duration(g)*raceLoadNs/40
+		go guarded(func() {
+			for t0 := time.Now(); time.Since(t0) < delay; {
+			}
+			if e, b := sentinel.Entry(res); b == nil {
+				e.Exit()
+			}
+		})
+	}
+	close(start)
+	wg.Wait()
+	rep.Evaluations++
+	rep.Count("start_up_race_trials", 1)
+	ok := true
+	if x := fault.Load(); x != nil {
+		fail("C02_no_panic", "load-or-request-panicked", fmt.Sprint("start-up phase: ", x))
+		ok = false
+	} else {
+		clk.SetMs(base0 + 20000) // a fresh window of every geometry used here, aligned
+		admitted := 0
+		n := 3 + int(T)
+		for i := 0; i < n; i++ {
+			if e, b := sentinel.Entry(res); b == nil {
+				admitted++
+				e.Exit()
+			}
+		}
+		switch {
+		case admitted > int(T):
+			fail("C02_no_excess", "admitted-over-threshold", fmt.Sprintf("%d of %d sequential single-token requests admitted in one fresh window, threshold %v (the rule reads a window the requests do not reach)", admitted, n, T))
+			ok = false
+		case admitted < int(T):
+			fail("C02_no_spurious_block", "spurious-rejection", fmt.Sprintf("only %d of %d sequential single-token requests admitted in one fresh window, threshold %v", admitted, n, T))
+			ok = false
+		}
+	}
+	func() {
+		defer func() { recover() }()
+		flow.ClearRules()
+		if trial%200 == 199 {
+			stat.ResetResourceNodeMap()
+		}
+	}()
+	return ok
+}
+
 const concBase = 100000
 const resetBase = 200000
 
@@ -1259,6 +1377,18 @@ func main() {
 			fmt.Println(strings.ReplaceAll(coqConc(c, evs, obs, fin, tf), "\n", " "))
 		}
 	}
+	nRace := a.Pick(0, 36000, 200000)
+	raceCalibrate()
+	if a.Search {
+		nRace *= 3
+	}
+	if a.Only >= raceBase {
+		raceTrial(a.Only-raceBase, clk, rep)
+		for _, f := range rep.MonitorFailures {
+			fmt.Printf("MONITOR-FAIL clause=%s signature=%s %s\n", f.Clause, f.Signature, f.Detail)
+		}
+		return
+	}
 	if a.Only >= 0 {
 		if a.Only >= concBase {
 			runOneConc(a.Only, false)
@@ -1278,6 +1408,11 @@ func main() {
 	}
 	for j := 0; j < nResetMon; j++ {
 		runOneConc(resetBase+j, j < nResetCorr)
+	}
+	for k := 0; k < nRace; k++ {
+		if !raceTrial(k, clk, rep) {
+			break
+		}
 	}
 	rep.DistinctNontrivial = dist.N()
 	rep.Consts["config.GlobalStatisticSampleCountTotal"] = config.GlobalStatisticSampleCountTotal()
